@@ -939,7 +939,7 @@ private:
             }
           }
           BPP_EIGENVALUE_VERIF_BR(32, x == 0.0);
-          if (x == 0.0)
+          if (k != m && x == 0.0)
           {
             break;
           }
